@@ -671,9 +671,10 @@ fn run_c20(seed: u64, rounds: usize) -> Report {
                 Ok(r) => r,
                 Err(e) if silent_peer.is_some() => {
                     // bounded progress: release the silent peer; the SAME connection must then
-                    // be answered (the bytes are already on their way)
+                    // be answered
                     drop(silent_peer);
-                    match c.request(b"", Duration::from_secs(20)) {
+                    // (the request was not taken by the TLS layer: its handshake had not finished)
+                    match c.request(&wire, Duration::from_secs(20)) {
                         Ok(late) if case != "complete" || late.status == 101 => {
                             blocked_verdict = true;
                             rep.violate(
@@ -1115,6 +1116,7 @@ fn run_c16(seed: u64, rounds: usize) -> Report {
         let mut quitter_uids: Vec<u64> = vec![];
         let mut dead = false;
         let mut cancel_verdicts = 0;
+        let mut linger_verdict = false;
         for r in 0..rounds {
             let mut rng = Rng::derive(seed, "c16-tls", if mode_tag == "det" { 0 } else { 1 }, r as u64);
             let stage = *rng.pick(&["tcp-only", "hello-prefix", "hello-only", "handshake-done", "partial-request", "request-sent", "handler-running"]);
@@ -1197,6 +1199,8 @@ fn run_c16(seed: u64, rounds: usize) -> Report {
                     continue;
                 }
             };
+            let linger = !linger_verdict && matches!(stage, "tcp-only" | "hello-prefix" | "hello-only") && rng.chance(1, 3);
+            let mut lingering: Vec<TcpStream> = vec![];
             for _ in 0..k {
                 let Ok((mut c, hello)) = TlsClient::connect(srv.addr, &cfg) else {
                     rep.inconclusive("connect");
@@ -1226,6 +1230,12 @@ fn run_c16(seed: u64, rounds: usize) -> Report {
                     }
                 };
                 std::thread::sleep(Duration::from_micros(rng.below(4000)));
+                if linger {
+                    // this one takes its time leaving: it is still connected (and silent)
+                    // while a newcomer must be served
+                    lingering.push(c.sock);
+                    continue;
+                }
                 if how == "rst" {
                     rst_close(c.sock);
                 } else {
@@ -1233,7 +1243,39 @@ fn run_c16(seed: u64, rounds: usize) -> Report {
                     drop(c);
                 }
             }
-            rep.eval(format!("{stage}|{how}|k{k}|{mode_tag}"));
+            if !lingering.is_empty() {
+                match health(srv.addr, &cfg, Duration::from_secs(8)) {
+                    Ok(_) => rep.count("newcomers_served_while_a_leaving_peer_lingered", 1),
+                    Err(e1) => {
+                        let n = lingering.len();
+                        for sck in lingering.drain(..) {
+                            if how == "rst" {
+                                rst_close(sck);
+                            } else {
+                                let _ = sck.shutdown(std::net::Shutdown::Both);
+                            }
+                        }
+                        match health(srv.addr, &cfg, Duration::from_secs(20)) {
+                            Ok(_) => {
+                                linger_verdict = true;
+                                rep.violate(
+                                    format!("C16:tls:newcomer-not-served-until-leaving-peer-had-gone:{stage}"),
+                                    wit(json!({"lingering_peers": n, "while_they_lingered": e1, "after_they_left": "200"})),
+                                );
+                            }
+                            Err(_) => rep.inconclusive("newcomer not served with and without lingering peers"),
+                        }
+                    }
+                }
+                for sck in lingering.drain(..) {
+                    if how == "rst" {
+                        rst_close(sck);
+                    } else {
+                        let _ = sck.shutdown(std::net::Shutdown::Both);
+                    }
+                }
+            }
+            rep.eval(format!("{stage}|{how}|k{k}|{mode_tag}{}", if linger { "|linger" } else { "" }));
             // the stayer's answer
             let mut buf = stayer.pending.clone();
             let mut tmp = [0u8; 8192];
